@@ -1,5 +1,164 @@
-import AsyncFix.Model.TesterDict
-import AsyncFix.Model.TesterWire
+/-
+C20 — the bundled test helper fabricates valid, consistent counterparty traffic.
+
+Part 1 (this file): the fabrication functions of `FIXTester` (`Model/Tester.lean`): every report the
+model of `fix_exec_report_msg` returns – for ALL tester states, order views and argument combinations,
+i.e. whenever none of the helper's own assertions (each modelled as an explicit refusal) fires –
+satisfies the quantity invariants, carries a fresh ExecID and exactly the documented tags; ExecIDs are
+strictly increasing over arbitrary call sequences; the OrderID is the order's own once it has one; the
+report is processed by the order object without raising when it was fabricated for that order; the
+same for cancel rejects; all fabricated messages pass the dictionary check generated from FIX44.xml.
+
+Part 2 (`Props/C20Lock.lean`): the simulated acceptor wiring is in lock-step with two session-model
+endpoints on clean scripts.
+-/
+import AsyncFix.Lemmas.TesterFab
 namespace AsyncFix.Props.C20
-theorem placeholder : True := trivial
+open AsyncFix.Tester AsyncFix.Model.OrderTable
+
+/-! ## 1. `fabricated_report_inv` -/
+
+theorem documentedTags_nodup (a : Args) : (documentedTags a).Nodup := by
+  unfold documentedTags
+  cases truthy a.origClordId <;> cases a.lastQty.isSome <;> decide
+
+/-- Whenever `fix_exec_report_msg` returns a message: CumQty + LeavesQty ≤ OrderQty (the values the
+message carries at 14 / 151 / 38), LeavesQty = 0 when the reported status is one the code treats as
+finished (FILLED CANCELED REJECTED EXPIRED), ExecID is the successor of the tester's counter, which
+moves to it, and the tags are exactly the documented ones, each once, in the documented order. -/
+theorem fabricated_report_inv {sc : Option (RMsg → Bool)} {st st' : TState} {o : OrderView} {a : Args} {m : RMsg}
+    (h : fabricate sc st o a = (st', .ok m)) :
+    ∃ cum leaves oq : Int,
+      m.qty? 14 = some cum ∧ m.qty? 151 = some leaves ∧ m.qty? 38 = some oq ∧
+      cum + leaves ≤ oq ∧
+      (∀ s, m.str? 39 = some s → s ∈ finished → leaves = 0) ∧
+      m.nat? 17 = some (st.execCtr + 1) ∧ st'.execCtr = st.execCtr + 1 ∧
+      m.mtype = "8" ∧ m.tagList = documentedTags a ∧ m.tagList.Nodup := by
+  obtain ⟨_, hm, hst, rfl, _⟩ := fabricate_ok h
+  refine ⟨_, _, _, buildReport_qty14 .., buildReport_qty151 .., buildReport_qty38 .., ?_, ?_,
+    buildReport_nat17 .., ?_, rfl, buildReport_tagList .., ?_⟩
+  · exact check_sum hm
+  · intro s hs hfin
+    rw [buildReport_str39] at hs
+    cases hs
+    exact check_finished hm hfin
+  · rw [hst]; rfl
+  · rw [buildReport_tagList]; exact documentedTags_nodup a
+
+/-- non-vacuity: a partial fill of a live order is accepted (and the theorem applies to it) -/
+example :
+    (fabricate none { registered := ["c--1"] }
+      { clordId := "c--1", qty := ⟨80, true⟩, price := ⟨800, true⟩, leavesQty := ⟨80, true⟩, status := "0" }
+      { clordId := "c--1", execType := "F", ordStatus := "1", cumQty := some ⟨24, true⟩, leavesQty := some ⟨56, true⟩,
+        lastQty := some ⟨24, true⟩ }).2.isOk = true := by decide +kernel
+
+/-! ### ExecID: strictly increasing over arbitrary call sequences -/
+
+/-- the ExecIDs of the reports a call sequence produced, in call order -/
+def execIds : List (Except Refusal RMsg) → List Nat
+  | [] => []
+  | .ok m :: r => (match m.nat? 17 with | some k => [k] | none => []) ++ execIds r
+  | .error _ :: r => execIds r
+
+theorem execIds_bounds (sc : Option (RMsg → Bool)) (calls : List (OrderView × Args)) (st : TState) :
+    st.execCtr ≤ (runCalls sc st calls).1.execCtr ∧
+    (∀ i ∈ execIds (runCalls sc st calls).2, st.execCtr < i ∧ i ≤ (runCalls sc st calls).1.execCtr) ∧
+    (execIds (runCalls sc st calls).2).Pairwise (· < ·) := by
+  induction calls generalizing st with
+  | nil => simp [runCalls, execIds]
+  | cons c rest ih =>
+    obtain ⟨o, a⟩ := c
+    have hle := fabricate_execCtr_le sc st o a
+    obtain ⟨ih1, ih2, ih3⟩ := ih (fabricate sc st o a).1
+    simp only [runCalls]
+    rcases hf : fabricate sc st o a with ⟨st1, r⟩
+    rw [hf] at hle ih1 ih2 ih3
+    simp only at hle ih1 ih2 ih3 ⊢
+    cases r with
+    | error e =>
+      refine ⟨by omega, ?_, ih3⟩
+      intro i hi
+      have := ih2 i hi
+      omega
+    | ok m =>
+      obtain ⟨_, _, _, _, _, _, _, _, h17, hctr, _⟩ := fabricated_report_inv hf
+      simp only [execIds, h17]
+      refine ⟨by omega, ?_, ?_⟩
+      · intro i hi
+        rcases List.mem_append.mp hi with hi | hi
+        · simp at hi; subst hi; omega
+        · have := ih2 i hi; omega
+      · simp only [List.singleton_append, List.pairwise_cons]
+        exact ⟨fun j hj => by have := ih2 j hj; omega, ih3⟩
+
+/-- Every ExecID is strictly greater than every ExecID fabricated before it on the same tester – for
+every sequence of calls, for any orders and arguments, refused calls included. -/
+theorem exec_ids_strictly_increasing (sc : Option (RMsg → Bool)) (st : TState) (calls : List (OrderView × Args)) :
+    (execIds (runCalls sc st calls).2).Pairwise (· < ·) := (execIds_bounds sc calls st).2.2
+
+/-! ### OrderID -/
+
+/-- Full statement: two reports fabricated for the same order one after the other carry the same
+OrderID.  FALSE on the current tree while the order has no OrderID yet (D27; `Findings/C20.lean`). -/
+def order_id_stable_full : Prop :=
+  ∀ (sc : Option (RMsg → Bool)) (st st1 st2 : TState) (o : OrderView) (a1 a2 : Args) (m1 m2 : RMsg),
+    fabricate sc st o a1 = (st1, .ok m1) → fabricate sc st1 o a2 = (st2, .ok m2) → m1.str? 37 = m2.str? 37
+
+/-- Proved part: once the order has an OrderID, every report fabricated for it – on any tester, in any
+tester state, with any arguments – carries exactly that OrderID.  Excluded: `order.order_id is None`
+(known finding C20-orderid-unstable-before-first-processing). -/
+theorem order_id_stable_partial {sc : Option (RMsg → Bool)} {st st' : TState} {o : OrderView} {a : Args} {m : RMsg}
+    {x : String} (hid : o.orderId = some x) (h : fabricate sc st o a = (st', .ok m)) : m.str? 37 = some x := by
+  obtain ⟨_, _, _, rfl, _⟩ := fabricate_ok h
+  simp [RMsg.str?, buildReport_get37, orderIdOf, hid, Val.render]
+
+/-! ## 2. `fabricated_processable` -/
+
+theorem k8_mem : "8" ∈ AsyncFix.Generated.OrderTable.spec.map Prod.fst := by decide +kernel
+theorem k9_mem : "9" ∈ AsyncFix.Generated.OrderTable.spec.map Prod.fst := by decide +kernel
+
+theorem applyStatus_ok (o : OrderView) (r : Res) (rep : String) (hrep : rep ∈ stVals)
+    (hr : r = .to rep ∨ r = .none) : ∃ o' b, applyStatus o r = .ok (o', b) := by
+  rcases hr with rfl | rfl
+  · unfold applyStatus
+    have hc : stVals.contains rep = true := by simpa using hrep
+    by_cases he : (rep == "") = true
+    · simp [he]
+    · simp [he, hrep]
+  · exact ⟨o, false, rfl⟩
+
+/-- Full statement: every report the helper fabricates for an order is processed by that order's
+`process_execution_report` without raising.  FALSE: the helper accepts any non-empty ClOrdID
+(`Findings/C20.lean`). -/
+def fabricated_processable_full : Prop :=
+  ∀ (sc : Option (RMsg → Bool)) (st st' : TState) (o : OrderView) (a : Args) (m : RMsg),
+    a.ordStatus ∈ stVals → fabricate sc st o a = (st', .ok m) → ∃ o' b, processExecReport o m = .ok (o', b)
+
+/-- Proved part: the report names the order's ClOrdID or its OrigClOrdID, and the reported status is a
+member of `FOrdStatus` (typed argument).  Then none of the raising branches of
+`process_execution_report` is taken (message type, the six tag reads, the three `float()`s, the ClOrdID
+check, `change_status`, `FOrdStatus(new_status)`); the status part is C16's trichotomy for kind 8 in
+non-raising mode. -/
+theorem fabricated_processable_partial {sc : Option (RMsg → Bool)} {st st' : TState} {o : OrderView} {a : Args}
+    {m : RMsg} (hs : a.ordStatus ∈ stVals)
+    (hc : a.clordId = o.clordId ∨ some a.clordId = o.origClordId)
+    (h : fabricate sc st o a = (st', .ok m)) : ∃ o' b, processExecReport o m = .ok (o', b) := by
+  obtain ⟨_, _, _, rfl, _⟩ := fabricate_ok h
+  obtain ⟨r11, r14, r39, r150, r151, r37, r6, r44, r38⟩ := buildReport_reads o a (orderIdOf st o).2 (st.execCtr + 1)
+  have hnotmis : (a.clordId != o.clordId && some a.clordId != o.origClordId) = false := by
+    rcases hc with hc | hc <;> simp [hc]
+  have htri := AsyncFix.Props.C16.trichotomy_partial o.status "8" a.execType a.ordStatus false k8_mem
+  have hr : changeStatus AsyncFix.Generated.OrderTable.spec o.status "8" a.execType a.ordStatus false = .to a.ordStatus ∨
+      changeStatus AsyncFix.Generated.OrderTable.spec o.status "8" a.execType a.ordStatus false = .none := by
+    rcases htri with h | h | h
+    · exact Or.inl h
+    · exact Or.inr h
+    · exact absurd h.2 (by decide)
+  have hnr : (changeStatus AsyncFix.Generated.OrderTable.spec o.status "8" a.execType a.ordStatus false == Res.raised) = false := by
+    rcases hr with h | h <;> rw [h] <;> simp
+  unfold processExecReport
+  simp only [buildReport_mtype, r11, r14, r39, r150, r151, r37, r6, r44, r38, hnotmis, hnr, bne_self_eq_false,
+    Bool.false_eq_true, if_false, bind, Except.bind, pure, Except.pure]
+  split <;> exact applyStatus_ok _ _ _ hs hr
+
 end AsyncFix.Props.C20
